@@ -132,7 +132,9 @@ func opAddFields(variant, to, fieldsYAML string) op {
 func opAddObject(variant, object, as string, comments []string) op {
 	y := fmt.Sprintf("add_object: {object: %s, as: %s%s}", object, as, commentsYAML(comments))
 	return op{T: "add_object", Variant: variant, Name: y, YAML: y,
-		Model: func(c *mctx, s mState) []alt { return modelAddObject(c, s, parseObjRef(object), decodeType(as), comments) }}
+		Model: func(c *mctx, s mState) []alt {
+			return modelAddObject(c, s, parseObjRef(object), decodeType(as), comments)
+		}}
 }
 
 func opDuplicateObject(variant, object, as string, omit []string) op {
@@ -142,19 +144,25 @@ func opDuplicateObject(variant, object, as string, omit []string) op {
 	}
 	y += "}"
 	return op{T: "duplicate_object", Variant: variant, Name: y, YAML: y,
-		Model: func(c *mctx, s mState) []alt { return modelDuplicateObject(c, s, parseObjRef(object), parseObjRef(as), omit) }}
+		Model: func(c *mctx, s mState) []alt {
+			return modelDuplicateObject(c, s, parseObjRef(object), parseObjRef(as), omit)
+		}}
 }
 
 func opRetypeObject(variant, object, as string, comments []string) op {
 	y := fmt.Sprintf("retype_object: {object: %s, as: %s%s}", object, as, commentsYAML(comments))
 	return op{T: "retype_object", Variant: variant, Name: y, YAML: y,
-		Model: func(c *mctx, s mState) []alt { return modelRetypeObject(c, s, parseObjRef(object), decodeType(as), comments) }}
+		Model: func(c *mctx, s mState) []alt {
+			return modelRetypeObject(c, s, parseObjRef(object), decodeType(as), comments)
+		}}
 }
 
 func opRetypeField(variant, field, as string, comments []string) op {
 	y := fmt.Sprintf("retype_field: {field: %s, as: %s%s}", field, as, commentsYAML(comments))
 	return op{T: "retype_field", Variant: variant, Name: y, YAML: y,
-		Model: func(c *mctx, s mState) []alt { return modelRetypeField(c, s, parseFieldRef(field), decodeType(as), comments) }}
+		Model: func(c *mctx, s mState) []alt {
+			return modelRetypeField(c, s, parseFieldRef(field), decodeType(as), comments)
+		}}
 }
 
 func opFieldsSetRequired(variant string, required bool, fields ...string) op {
@@ -420,6 +428,9 @@ func alphabet(seed mState) []op {
 	// duplicate_object
 	add(true, opDuplicateObject("exact", sref, pkg+".Copy", nil))
 	add(true, opDuplicateObject("exact-omit", sref, pkg+".CopyLess", []string{swapCase(f)}))
+	if !strings.EqualFold(f, last) {
+		add(false, opDuplicateObject("exact-omit-multi", sref, pkg+".CopyLess2", []string{last, swapCase(f)}))
+	}
 	add(true, opDuplicateObject("othercase", sOther, pkg+".Copy", nil))
 	add(false, opDuplicateObject("absent", pkg+".Nope", pkg+".Copy", nil))
 	add(false, opDuplicateObject("otherpkg-target", sref, otherPkg+".Copy", nil))
@@ -521,6 +532,11 @@ func alphabet(seed mState) []op {
 	add(false, opSchemaSetEntryPoint("absent", absentPkg, S.Name))
 	add(false, opSchemaSetEntryPoint("otherpkg", otherPkg, S.Name))
 
+	// list-valued parameters naming several targets at once
+	for _, o := range listOps(objs) {
+		add(false, o)
+	}
+
 	// library passes
 	add(true, opPrefix("all", "Pre"))
 	add(false, opPrefix("empty", ""))
@@ -535,6 +551,164 @@ func alphabet(seed mState) []op {
 		}
 		seen[o.Name] = true
 		out = append(out, o)
+	}
+	return out
+}
+
+// listOps: the list-valued parameters (omit.objects, constant_to_enum.objects,
+// omit_fields.fields, fields_set_required/not_required.fields,
+// fields_set_default.defaults, duplicate_object.omit_fields) with SEVERAL
+// references in one transformation, chosen so that any two of them agree on
+// part of their spelling -- the shapes an index keyed too coarsely (by bare
+// object name, by package, by field name, ...) or a loop that stops at the
+// first hit would conflate:
+//
+//	K1  one object name (up to case) in two packages      a.N, b.N
+//	K1x the same in three packages                        a.N, b.N, c.N
+//	K3  two names of one package differing only in case   p.N, p.n
+//	K4  two unrelated objects of two packages             a.N, b.M
+//	F1  one object.field spelling in two packages         a.N.f, b.N.f
+//	F2  one field name in two objects of one package      p.N.f, p.M.f
+//	F4  unrelated fields of two objects of one package    p.N.f, p.M.g
+//
+// each in both orders, with an absent reference listed first, and with the
+// first reference spelled in the other letter case. (Two objects of one
+// package and two fields of one object are the older "multi" operations.)
+func listOps(objs []objInfo) []op {
+	fold := strings.EqualFold
+	commonField := func(a, b objInfo) (string, string, bool) {
+		for _, fa := range a.Fields {
+			for _, fb := range b.Fields {
+				if fold(fa.Name, fb.Name) {
+					return fa.Name, fb.Name, true
+				}
+			}
+		}
+		return "", "", false
+	}
+	type pair struct{ a, b string }
+	var k1, k1const, k3, k3const, k4, f1, f2, f4 *pair
+	var k1x, k1xConst []string
+	triple := func(i, j int) []string { // a.N, b.N and the same name in a third package, if any
+		a, b := objs[i], objs[j]
+		t := []string{a.ref(), b.ref()}
+		for _, c := range objs[j+1:] {
+			if c.Pkg != a.Pkg && c.Pkg != b.Pkg && fold(c.Name, a.Name) && c.StrConst == a.StrConst && len(t) == 2 {
+				t = append(t, c.ref())
+			}
+		}
+		return t
+	}
+	for i := range objs {
+		for j := i + 1; j < len(objs); j++ {
+			a, b := objs[i], objs[j]
+			samePkg, sameName := a.Pkg == b.Pkg, fold(a.Name, b.Name)
+			switch {
+			case !samePkg && sameName:
+				if k1 == nil {
+					k1 = &pair{a.ref(), b.ref()}
+					k1x = triple(i, j)
+				}
+				if k1const == nil && a.StrConst && b.StrConst {
+					k1const = &pair{a.ref(), b.ref()}
+					k1xConst = triple(i, j)
+				}
+				if fa, fb, ok := commonField(a, b); ok && f1 == nil && a.Struct && b.Struct {
+					f1 = &pair{a.ref() + "." + fa, b.ref() + "." + fb}
+				}
+			case samePkg && sameName && a.Name != b.Name:
+				if k3 == nil {
+					k3 = &pair{a.ref(), b.ref()}
+				}
+				if k3const == nil && (a.StrConst || b.StrConst) {
+					k3const = &pair{a.ref(), b.ref()}
+				}
+			case !samePkg && !sameName:
+				if k4 == nil {
+					k4 = &pair{a.ref(), b.ref()}
+				}
+			case samePkg && !sameName && a.Struct && b.Struct && len(a.Fields) > 0 && len(b.Fields) > 0:
+				if fa, fb, ok := commonField(a, b); ok && f2 == nil {
+					f2 = &pair{a.ref() + "." + fa, b.ref() + "." + fb}
+				}
+				fa, fb := a.Fields[0].Name, b.Fields[len(b.Fields)-1].Name
+				if f4 == nil && !fold(fa, fb) {
+					f4 = &pair{a.ref() + "." + fa, b.ref() + "." + fb}
+				}
+			}
+		}
+	}
+	if k1const == nil {
+		k1const, k1xConst = k1, k1x
+	}
+	if k3const == nil {
+		k3const = k3
+	}
+	swapLast := func(ref string) string { // other letter case of the object name (object refs) / of object and field (field refs)
+		parts := strings.Split(ref, ".")
+		for i := 1; i < len(parts); i++ {
+			parts[i] = swapCase(parts[i])
+		}
+		return strings.Join(parts, ".")
+	}
+	var out []op
+	// lists yields the reference lists derived from one pair
+	lists := func(p *pair, full bool, absent string) [][]string {
+		if p == nil {
+			return nil
+		}
+		l := [][]string{{p.a, p.b}, {p.b, p.a}}
+		if full {
+			l = append(l, []string{absent, p.a, p.b}, []string{swapLast(p.a), p.b})
+		}
+		return l
+	}
+	objLists := func(kind string, p *pair, full bool, mk func(variant string, refs ...string) op) {
+		for i, l := range lists(p, full, "nopkg.Nope") {
+			out = append(out, mk(fmt.Sprintf("multi-%s-%d", kind, i), l...))
+		}
+	}
+	fieldLists := func(kind string, p *pair, full bool, mk func(variant string, refs ...string) op) {
+		for i, l := range lists(p, full, "nopkg.Nope.nope") {
+			out = append(out, mk(fmt.Sprintf("multi-%s-%d", kind, i), l...))
+		}
+	}
+	objLists("samename2pkg", k1, true, opOmit)
+	objLists("casetwins", k3, false, opOmit)
+	objLists("2pkg", k4, false, opOmit)
+	objLists("samename2pkg", k1const, true, opConstantToEnum)
+	objLists("casetwins", k3const, false, opConstantToEnum)
+	if len(k1x) == 3 {
+		out = append(out, opOmit("multi-samename3pkg-0", k1x...), opOmit("multi-samename3pkg-1", k1x[2], k1x[1], k1x[0]))
+	}
+	if len(k1xConst) == 3 {
+		out = append(out, opConstantToEnum("multi-samename3pkg-0", k1xConst...), opConstantToEnum("multi-samename3pkg-1", k1xConst[2], k1xConst[1], k1xConst[0]))
+	}
+	fieldLists("samefield2pkg", f1, true, opOmitFields)
+	fieldLists("samefield2obj", f2, true, opOmitFields)
+	fieldLists("2obj", f4, false, opOmitFields)
+	for _, required := range []bool{true, false} {
+		required := required
+		mk := func(variant string, refs ...string) op { return opFieldsSetRequired(variant, required, refs...) }
+		fieldLists("samefield2pkg", f1, false, mk)
+		fieldLists("samefield2obj", f2, false, mk)
+	}
+	mkDefault := func(variant string, refs ...string) op {
+		var kv []string
+		for i, r := range refs {
+			kv = append(kv, r, fmt.Sprintf("v%d", i))
+		}
+		return opFieldsSetDefault(variant, kv...)
+	}
+	for i, l := range lists(f1, true, "nopkg.Nope.nope") {
+		if i != 1 { // a YAML mapping has no order: the reversed list is the same configuration
+			out = append(out, mkDefault(fmt.Sprintf("multi-samefield2pkg-%d", i), l...))
+		}
+	}
+	for i, l := range lists(f2, true, "nopkg.Nope.nope") {
+		if i != 1 {
+			out = append(out, mkDefault(fmt.Sprintf("multi-samefield2obj-%d", i), l...))
+		}
 	}
 	return out
 }
